@@ -61,7 +61,8 @@ pub enum DRecv {
 pub enum MultiKind {
     Multi { len: u16 },
     FromMulti,
-    MsgMulti { ctl: bool },
+    /// `recv_msg_multi(clen)`: any control length, aligned or not
+    MsgMulti { clen: u8 },
 }
 
 #[derive(Debug, Clone, Serialize, Deserialize)]
@@ -101,6 +102,11 @@ fn tos_control(fam: Family, tos: Option<u8>) -> Vec<u8> {
         (Family::Udp6, Some(t)) => cmsg(libc::IPPROTO_IPV6, libc::IPV6_TCLASS, &(t as i32).to_ne_bytes()),
         _ => Vec::new(),
     }
+}
+
+/// CMSG_LEN of the traffic-class message the kernel delivers (IP_TOS: one byte, IPV6_TCLASS: an int)
+fn tos_cmsg_len(fam: Family) -> usize {
+    16 + if fam == Family::Udp6 { 4 } else { 1 }
 }
 
 fn send_tos(d: &DSend) -> u8 {
@@ -198,16 +204,22 @@ fn check_got(sh: &Shared, case: &DgramCase, i: usize, got: Got, sender: &Peer) -
             }
         };
         let want_tos = case.recv_tos && case.family != Family::UnixDgram && *has_room;
+        // full traffic-class messages; one whose data was cut short by a too small control buffer is a
+        // truncated message (legal exactly when there was no room for a whole one)
+        let is_tos = |l: i32, t: i32| matches!((case.family, l, t), (Family::Udp4, libc::IPPROTO_IP, libc::IP_TOS) | (Family::Udp6, libc::IPPROTO_IPV6, libc::IPV6_TCLASS));
+        let need = tos_cmsg_len(case.family) - 16;
         let tos: Vec<i32> = msgs
             .iter()
-            .filter_map(|(l, t, d)| match (case.family, *l, *t) {
-                (Family::Udp4, libc::IPPROTO_IP, libc::IP_TOS) => Some(d.first().copied().unwrap_or(0) as i32),
-                (Family::Udp6, libc::IPPROTO_IPV6, libc::IPV6_TCLASS) if d.len() >= 4 => Some(i32::from_ne_bytes(d[..4].try_into().unwrap())),
-                _ => None,
-            })
+            .filter(|(l, t, d)| is_tos(*l, *t) && d.len() >= need)
+            .map(|(_, _, d)| if need == 1 { d[0] as i32 } else { i32::from_ne_bytes(d[..4].try_into().unwrap()) })
             .collect();
-        if msgs.len() != tos.len() {
+        let cut = msgs.iter().filter(|(l, t, d)| is_tos(*l, *t) && d.len() < need).count();
+        if msgs.len() != tos.len() + cut {
             sh.bad("control-unexpected", format!("{what}: control messages {msgs:?}"));
+            return false;
+        }
+        if cut > 0 && *has_room {
+            sh.bad("control-truncated-though-room", format!("{what}: control messages {msgs:?}"));
             return false;
         }
         // A delivered traffic class must be the one that was sent, wherever it shows up (the polling
@@ -593,10 +605,14 @@ async fn udp_receiver(sock: UdpSocket, sender: Peer, case: DgramCase, sh: Rc<Sha
                     }
                 }
             }
-            MultiKind::MsgMulti { ctl } => {
+            MultiKind::MsgMulti { clen } => {
                 kind(11);
-                let clen = if *ctl { 64 } else { 0 };
+                let clen = *clen as usize;
                 let cap = if case.drv == Drv::IoUring { pool_len.saturating_sub(16 + 128 + clen) } else { pool_len };
+                // room for control data: io_uring reserves exactly `clen` bytes; the fallback takes a pool
+                // buffer narrowed to `clen` (0 = not narrowed)
+                let ctl_cap = if case.drv == Drv::IoUring { clen } else if clen == 0 { pool_len } else { clen.min(pool_len) };
+                let has_room = ctl_cap >= tos_cmsg_len(case.family);
                 let mut st = std::pin::pin!(sock.recv_msg_multi(clen));
                 while i < case.msgs.len() {
                     match st.next().await {
@@ -611,7 +627,7 @@ async fn udp_receiver(sock: UdpSocket, sender: Peer, case: DgramCase, sh: Rc<Sha
                                 cap,
                                 addr: Some(r.addr()),
                                 flags: Some(r.flags()),
-                                control: Some((r.ancillary().to_vec(), *ctl)),
+                                control: Some((r.ancillary().to_vec(), has_room)),
                                 none: false,
                             };
                             drop(r);
@@ -995,7 +1011,7 @@ fn drecv() -> impl Strategy<Value = DRecv> + Clone {
 fn multi() -> impl Strategy<Value = Option<(u16, MultiKind)>> + Clone {
     prop_oneof![
         2 => Just(None),
-        3 => (any::<u16>(), prop_oneof![prop_oneof![Just(0u16), 1u16..=2100].prop_map(|len| MultiKind::Multi { len }), Just(MultiKind::FromMulti), any::<bool>().prop_map(|ctl| MultiKind::MsgMulti { ctl })]).prop_map(Some),
+        3 => (any::<u16>(), prop_oneof![prop_oneof![Just(0u16), 1u16..=2100].prop_map(|len| MultiKind::Multi { len }), Just(MultiKind::FromMulti), prop_oneof![2 => Just(0u8), 1 => Just(64u8), 5 => 1u8..=128].prop_map(|clen| MultiKind::MsgMulti { clen })]).prop_map(Some),
     ]
 }
 
@@ -1028,8 +1044,9 @@ pub fn normalise(c: &mut DgramCase) {
             *mk = MultiKind::Multi { len: 0 };
         }
         // io_uring multishot recvmsg: header (16) + name (128) + control + payload share one pool buffer
-        if c.drv == Drv::IoUring && !matches!(mk, MultiKind::Multi { .. }) && c.pool_len < 256 {
-            c.pool_len = 256;
+        let clen = if let MultiKind::MsgMulti { clen } = mk { *clen as u16 } else { 0 };
+        if c.drv == Drv::IoUring && !matches!(mk, MultiKind::Multi { .. }) && c.pool_len < 16 + 128 + clen + 64 {
+            c.pool_len = 1024;
         }
     }
 }
@@ -1041,7 +1058,7 @@ pub fn run(s: &mut Session) {
         "case = driver {io_uring, poll} x family {UDP v4, UDP v6 via compio_net::UdpSocket; Unix datagram via the driver's socket ops} x connected/unconnected sender x 1-16 datagrams \
          (length 0..2000; send kind: send/send_to, vectored, send_msg(_vectored) with optional IP_TOS/IPV6_TCLASS control message, zero-copy variants) each paired with a receive call \
          (recv, recv_vectored, recv_from(_vectored), recv_msg(_vectored) with/without control buffer, recv_managed, recv_from_managed, recv_msg_managed; capacities 0..2100, smaller / equal / larger \
-         than the datagram) and optionally a multishot tail (recv_multi, recv_from_multi, recv_msg_multi) consuming the remaining datagrams; pool buffer length 64..4096; sender and receiver are \
+         than the datagram) and optionally a multishot tail (recv_multi, recv_from_multi, recv_msg_multi with any control length 0..128, aligned or not) consuming the remaining datagrams; pool buffer length 64..4096; sender and receiver are \
          concurrent tasks. Non-trivial = a truncated datagram, or >= 2 different receive kinds, or >= 2 different send kinds in the case; distinct = distinct serialised case.",
     );
     p.quick_cases = 6000;
@@ -1076,7 +1093,7 @@ pub fn run(s: &mut Session) {
                 pool_len: 1024,
                 seed: 1,
                 msgs: vec![Dg { len: 5, send: DSend::Plain, recv: DRecv::Recv { cap: 10 } }],
-                multi: Some((0, MultiKind::MsgMulti { ctl: true })),
+                multi: Some((0, MultiKind::MsgMulti { clen: 64 })),
             },
         ),
         (
